@@ -45,7 +45,7 @@ CHECKS = {
          "seeded simulation with scripted streams and simulator-owned select! tie-break"),
  "C16": ("exploration", "generated actor trees (depth <= 3, <= 6 nodes, three registration keys, outside holders): children never end before the parent's task, are released and stop gracefully afterwards (recursively), externally held ones live on; broadcasts exactly once to exactly the children registered under the type", "DESIGN.md#6 C16",
          "seeded simulation over generated actor trees + fault injection at the parent"),
- "C18": ("exploration", "the real spawner code of each runtime feature runs over a behavioural stub of that runtime's task handle (tokio/async-std detach on drop, smol cancels on drop); timing-independent programs x 15 spawn entry points x 3 runtimes x 3 schedules; canonical outcome records compared by the driver; every flavour must also satisfy the reference oracles (alive after spawn, C02-C05, C10, C17)", "DESIGN.md#6 C18",
+ "C18": ("exploration", "the real spawner code of each runtime feature runs over a behavioural stub of that runtime's task handle (tokio/async-std detach on drop, smol cancels on drop); timing-independent programs x 15 spawn entry points x 3 runtimes x 3 schedules; canonical outcome records compared by the driver; every flavour must also satisfy the reference oracles (alive after spawn, C02-C05, C10, C17); the thorough tier also runs the schedule-dependent programs of nine other properties on all three builds under their reference oracles", "DESIGN.md#6 C18",
          "seeded simulation of three runtime builds + cross-runtime outcome-record comparison"),
 }
 
